@@ -9,6 +9,7 @@ from __future__ import annotations
 import numpy as np
 
 import catalog
+import common
 import speclib
 from common import Ctx, DriverError
 from props.c11 import masked_action
